@@ -1348,7 +1348,9 @@ size_t ZSTD_decompressContinue(ZSTD_DCtx* dctx, void* dst, size_t dstCapacity, c
                 dctx->stage = bp.lastBlock ? ZSTDds_decompressLastBlock : ZSTDds_decompressBlock;
                 return 0;
             }
-            /* empty block */
+            /* empty block : only a raw block can be empty.
+             * A compressed block holds at least its literals and sequences section headers : ZSTD_decompressFrame() refuses one of size 0 */
+            RETURN_ERROR_IF(bp.blockType == bt_compressed, corruption_detected, "Compressed block of size 0");
             if (bp.lastBlock) {
                 /* end of frame : same content size verification as after a non-empty last block */
                 RETURN_ERROR_IF(
